@@ -30,4 +30,6 @@ class CellRangeSet""")]},
     {"id": "c18-zero-cell-is-blank", "expect": "fire", "edits": [(X, '        return cell.value is None or str(cell.value).strip() == ""', '        value = cell.value\n        if not value:\n            return True\n        return isinstance(value, str) and not value.strip()')]},
     {"id": "c18-whitespace-cell-is-data", "expect": "fire", "edits": [(X, '        return cell.value is None or str(cell.value).strip() == ""', '        return cell.value is None or str(cell.value) == ""')]},
     {"id": "c18-n-blank-predicate-by-type", "expect": "silent", "edits": [(X, '        return cell.value is None or str(cell.value).strip() == ""', '        value = cell.value\n        if value is None:\n            return True\n        return isinstance(value, str) and not value.strip()')]},
+    {"id": "c18-ladder-starts-at-known-column", "expect": "fire", "edits": [(X, "                        (pos for pos, name in enumerate(cols_names) if name),", "                        (pos for pos, name in enumerate(cols_names) if name in known_cols_names),")]},
+    {"id": "c18-n-ladder-start-explicit-test", "expect": "silent", "edits": [(X, "                        (pos for pos, name in enumerate(cols_names) if name),", "                        (pos for pos, name in enumerate(cols_names) if name != ''),")]},
 ]
